@@ -59,6 +59,7 @@ func (b *base) get(newState bool) (*gen.Chain, *memory.Database) {
 			}
 			b.dbs[ns] = d
 		}
+		b.chain.Frozen = true
 	})
 	return b.chain, b.dbs[newState]
 }
